@@ -283,10 +283,12 @@ def span_close_bookkeeping(F, R):
     R.check(bad is None and n >= 1, "close-marks-entry", b, f"every received close id marks its entry on all {n} paths", bad or "no path receives a close notification")
     # ... and a waiter that subscribed before its span closed stays registered until it does: the predicate that sweeps the entries
     # removes one (and notifies its waiters) only after learning that its span was closed, and leaves every entry it keeps untouched
-    sweeps = [(s, t) for s, t in b.calls(lambda t: callee_is(t, r"HashMap(::<.*>)?::retain$"))]
+    # (the sweep may live in the routine that drains the notifications or in a sibling method of the collector)
+    sweeps = [(cb, s, t) for cb in F.crate_bodies() if (cb.impl or {}).get("self_adt") == "tracing::Collector" and cb.kind in ("Fn", "AssocFn")
+              for s, t in cb.calls(lambda t: callee_is(t, r"HashMap(::<.*>)?::retain$"))]
     if len(sweeps) != 1:
-        raise Unverifiable(f"sweep of the span entries (`retain`) in {b.short}: {len(sweeps)}")
-    cl = A.closure_of_operand(F, b, sweeps[0][1]["args"][1])
+        raise Unverifiable(f"sweep of the span entries (`retain`) in tracing::Collector: {len(sweeps)}")
+    cl = A.closure_of_operand(F, sweeps[0][0], sweeps[0][2]["args"][1])
     if cl is None:
         raise Unverifiable("predicate of the span-entry sweep")
     V = ("arg", 3)
